@@ -348,6 +348,8 @@ func evalClassDeclareStmt(vm *r.VM, node *syntax.ClassDeclareStmt) error {
 	if err != nil {
 		return err
 	}
+	// methods of the class's objects run in this module, wherever they are called from
+	classRef.SetModule(module)
 
 	// add symbol to current scope first
 	if err := vm.DeclareConstElement(className, classRef); err != nil {
